@@ -470,6 +470,17 @@ def run_for_property(prop, repo, seed=0, jobs=None):
                         'edits': [], 'transform': 'patch:' + os.path.join(
                             sdir, sid, 'patch.diff'),
                         'expect': None, 'clears': None, 'may_error': False})
+    # behaviour-preserving refactorings written by independent sub-agents:
+    # no check may report a violation on them ("cannot decide" is tolerated)
+    bdir = os.path.join(report.VERIF, 'benign')
+    if os.path.isdir(bdir):
+        for bid in sorted(os.listdir(bdir)):
+            pp = os.path.join(bdir, bid, 'patch.diff')
+            if os.path.exists(pp):
+                variants.append({
+                    'id': 'refactor-%s' % bid, 'property': prop,
+                    'kind': 'benign', 'edits': [], 'transform': 'patch:' + pp,
+                    'expect': None, 'clears': None, 'may_error': True})
     jobs = jobs or min(16, os.cpu_count() or 4)
     results = []
     with concurrent.futures.ThreadPoolExecutor(max_workers=jobs) as ex:
